@@ -58,3 +58,31 @@ Definition ellipse_bounds (s : ellipse) : rbnd :=
   let min_lat := lat (dest_deg (e_center s) 180 dy) in
   let min_lon := lon (dest_deg (e_center s) 270 dx) in
   (min_lon, min_lat, max_lon, max_lat).
+
+(* ---------------------------------------------------------------- what the code returns
+   inverse_haversine_degrees rounds both coordinates of the destination to 7 decimals
+   (SphereM.dest_deg_rounded, tied to calc.py by geneq/SphereGenEq.v); the definitions below are the
+   three `bounds` properties with that call, statement by statement, so that the translator output of
+   tools/gen_curvebounds.py is convertible with them (geneq/CurveBoundsGenEq.v).  Not modelled: float
+   evaluation, and the Coordinate constructor's wrap of the destination's longitude into [-180, 180). *)
+Definition circle_bounds_rounded (c : coord) (r : R) : rbnd :=
+  let nw_bound := dest_deg_rounded c 315 (r * sqrt 2) in
+  let se_bound := dest_deg_rounded c 135 (r * sqrt 2) in
+  (lon nw_bound, lat se_bound, lon se_bound, lat nw_bound).
+
+(* GeoRing.bounds: Some (the bounds) on the branch `angle_max - angle_min >= 360`, None on the wedge branch
+   (min/max over bounding_coords(): the vertex model BoundsM.bounds_of, tools/gen_bounds.py) *)
+Definition ring_bounds_full_opt (s : ring) : option rbnd :=
+  if rleb 360 (r_amax s - r_amin s) then Some (circle_bounds_rounded (r_center s) (r_outer s)) else None.
+
+(* GeoEllipse.centroid *)
+Definition ellipse_centroid (s : ellipse) : coord := e_center s.
+
+Definition ellipse_bounds_rounded (s : ellipse) : rbnd :=
+  let dx := ellipse_dx s in
+  let dy := ellipse_dy s in
+  let max_lat := lat (dest_deg_rounded (ellipse_centroid s) 0 dy) in
+  let max_lon := lon (dest_deg_rounded (ellipse_centroid s) 90 dx) in
+  let min_lat := lat (dest_deg_rounded (ellipse_centroid s) 180 dy) in
+  let min_lon := lon (dest_deg_rounded (ellipse_centroid s) 270 dx) in
+  (min_lon, min_lat, max_lon, max_lat).
